@@ -29,6 +29,13 @@ type saved struct {
 }
 
 func replay(sub string, raw json.RawMessage) ([]h.Failure, error) {
+	if sub == "depth" {
+		var c depthCase
+		if err := json.Unmarshal(raw, &c); err != nil {
+			return nil, err
+		}
+		return checkDepth(c), nil
+	}
 	var s saved
 	if err := json.Unmarshal(raw, &s); err != nil {
 		return nil, err
